@@ -48,6 +48,9 @@ func checkC09(r *Report, p *Program) {
 	claimKeepTable(r, p, "R09.14")
 	claimsTables(r, p, "R09.17")
 	copyIfFound(r, p, "R09.18")
+	freshDecodeTargets(r, p, "R09.20")
+	// a revision whose recorded claims changed in any way (names added OR removed) is written (shared with C01)
+	r01_revisions(r, p)
 	anyRollingTable(r, p, "R09.19")
 	revisionLabelsAgree(r, p, "R09.15")
 	// building a revision (its name is cut to length) cannot panic the worker
